@@ -1534,10 +1534,10 @@ func (f *shiftFails) fail(kind, detail, op, left, right, amount string) {
 
 func (f *shiftFails) flush(r *engine.R) {
 	type merged struct {
-		kind, left             string
-		ops, rights, amounts   map[string]bool
-		samples                []string
-		count                  int
+		kind, left           string
+		ops, rights, amounts map[string]bool
+		samples              []string
+		count                int
 	}
 	ms := map[string]*merged{}
 	var order []string
